@@ -145,14 +145,10 @@ func VX_C19_ProxyCall(args []int) {
 			}
 		}
 	case 1:
-		want := rcode
-		if rcode > 99 && rcode < 200 {
-			want = erpc.CodeBadGateway
-		}
-		vxAssert(rm.Status(true).Code() == want, "backend's status code (1xx => 502)")
-		if want == rcode {
-			vxAssert(rm.Status(true).Msg() == "backend says", "backend's status message unchanged")
-		}
+		// the backend answered: its status reaches the caller unchanged, whatever its code
+		// (only a failure of the backend connection surfaces as Bad Gateway)
+		vxAssert(rm.Status(true).Code() == rcode, "backend's status code unchanged")
+		vxAssert(rm.Status(true).Msg() == "backend says", "backend's status message unchanged")
 	case 2:
 		vxAssert(rm.Status(true).Code() == erpc.CodeBadGateway, "backend connection failure surfaces as Bad Gateway")
 	}
@@ -271,7 +267,7 @@ func VX_C19_Sequence(args []int) {
 			body = nil
 		case 3:
 			rs = append(rs, socket.WithStatus(erpc.NewStatus(104, "write failed at the backend "+tag, "")))
-			wantCode = erpc.CodeBadGateway
+			wantCode = 104 // the backend answered: its status reaches the caller unchanged
 			body = nil
 		}
 		rs = append(rs, socket.WithAddMeta("rk", "rv-"+tag))
@@ -282,7 +278,7 @@ func VX_C19_Sequence(args []int) {
 			return
 		}
 		rm, err := vxParse(fconn.writes[j])
-		vxAssert(err == nil && rm.Seq() == seq && rm.Status(true).Code() == wantCode, "the caller receives the backend's status for this call (1xx => 502)")
+		vxAssert(err == nil && rm.Seq() == seq && rm.Status(true).Code() == wantCode, "the caller receives the backend's status for this call, unchanged")
 		if err != nil {
 			return
 		}
